@@ -46,4 +46,5 @@ def run(rep, fb, tier):
     __import__("vf.rules.pyrules5", fromlist=["x"]).rule_py_slice_consumed(rep)
     __import__("vf.rules.pyrules5", fromlist=["x"]).rule_py_last_wins(rep)
     __import__("vf.rules.pyrules5", fromlist=["x"]).rule_py_offsets_of_pieces(rep)
+    __import__("vf.rules.pyrules5", fromlist=["x"]).rule_py_boundary_search_side(rep)
     rep.units = fb.units + ["src/awkward/partition.py, _util.py, operations/structure.py (ast)"]
